@@ -19,9 +19,6 @@ Variable ns : list node.
 Variables st0 st : state.
 Hypothesis HX : cert_ctx names defs ns st0 st.
 Hypothesis Hsym0 : forall i v, nth_error (s_sym st0) i = Some v -> v = VUnknown.
-Variable rank : nat -> nat.
-Hypothesis Hrank : forall s e, In (NConst s e) ns ->
-  (rank s <= length ns)%nat /\ forall s', reads_sym names e s' -> In s' (const_ids ns) -> (rank s' < rank s)%nat.
 Let HF := cx_frame _ _ _ _ _ HX.
 
 Lemma in_mid (n : node) l1 l2 : ns = l1 ++ n :: l2 -> In n ns.
@@ -121,6 +118,10 @@ Proof.
 Qed.
 
 (* ---------- stage 2: the constant sweeps ---------- *)
+Variable rank : nat -> nat.
+Hypothesis Hrank : forall s e, In (NConst s e) ns ->
+  (rank s <= length ns)%nat /\ forall s', reads_sym names e s' -> In s' (const_ids ns) -> (rank s' < rank s)%nat.
+
 Record sinv (cur : state) : Prop := {
   si_instr : s_instr cur = s_instr st0;
   si_data : s_data cur = s_data st0;
